@@ -120,6 +120,10 @@ func (sw *StreamWriter) PrepareIncremental() error {
 		if err := sw.db.Flatten(3); err != nil {
 			return fmt.Errorf("error during flatten in StreamWriter: %w", err)
 		}
+		// Flatten restarts the compactors when it returns. They have to stay stopped until
+		// sw.done() starts them: nobody else may touch the levels while the stream writer adds
+		// tables, and a second start would leave this set running for ever, even after Close.
+		sw.db.stopCompactions()
 		sw.prevLevel = len(sw.db.Levels()) - 1
 	}
 	return nil
